@@ -92,12 +92,86 @@ def c20_cases(tier):
     return cases
 
 
+def prolong_ref(vec, coarse, fine):
+    """independent piecewise-constant extension: the coarse element whose rectangle contains the fine element's centre"""
+    import numpy as np
+    out = np.zeros(len(fine))
+    for j, f in enumerate(fine):
+        tc, xc = sum(f.time_interval) / 2, sum(f.space_interval) / 2
+        hit = [i for i, c in enumerate(coarse)
+               if c.time_interval[0] < tc < c.time_interval[1] and c.space_interval[0] < xc < c.space_interval[1]]
+        assert len(hit) == 1, "reference: coarse elements must tile"
+        out[j] = vec[hit[0]]
+    return out
+
+
+class _Timeout(Exception):
+    pass
+
+
+@contextlib.contextmanager
+def time_limit(seconds):
+    import signal
+
+    def handler(signum, frame):
+        raise _Timeout()
+    old = signal.signal(signal.SIGALRM, handler)
+    signal.alarm(seconds)
+    try:
+        yield
+    finally:
+        signal.alarm(0)
+        signal.signal(signal.SIGALRM, old)
+
+
+def run_prolongate(chk, tier, seed, report=True):
+    """src.mesh.Prolongate on nested meshes: coarse = leaves at some point of a bisection history, fine = leaves 0..3 levels
+    later (mixed: some coarse elements stay leaves); values compared with the geometric reference, bitwise"""
+    import numpy as np
+    from src.mesh import Prolongate
+    results, n_eval = [], 0
+    cases = [("UnitSquare", 1, 2, 5), ("Circle", 2, 3, 9), ("LShape", 3, 0, 6), ("UnitSquare", 4, 4, 0), ("UnitSquare", 5, 3, 14)]
+    if tier == "thorough":
+        cases += [("PiSquare", 6, 6, 25), ("Circle", 7, 8, 40), ("LShape", 8, 5, 30)]
+    for curve, hs, steps, extra in cases:
+        mesh = build_mesh(curve, hs + 1000 * seed, steps)
+        coarse = list(mesh.leaf_elements)
+        rng = random.Random(77 + hs + seed)
+        with quiet():
+            for _ in range(extra):
+                leaves = list(mesh.leaf_elements)
+                mesh.refine_axis(leaves[rng.randrange(len(leaves))], rng.randrange(2))
+        fine = list(mesh.leaf_elements)
+        rng.shuffle(coarse)
+        rng.shuffle(fine)
+        vec = np.array([rng.uniform(-1, 1) for _ in coarse])
+        name = "Prolongate/{}/steps={}+{}".format(curve, steps, extra)
+        detail = dict(curve=curve, history_seed=hs, n_coarse=len(coarse), n_fine=len(fine))
+        try:
+            with time_limit(30):
+                got = Prolongate(vec, coarse, fine)
+            want = prolong_ref(vec, coarse, fine)
+            ok = got.shape == want.shape and bool(np.all(got == want))
+            if not ok:
+                bad = [j for j in range(len(fine)) if got[j] != want[j]][:3]
+                detail["first_bad"] = [(fine[j].time_interval, fine[j].space_interval, float(got[j]), float(want[j])) for j in bad]
+        except _Timeout:
+            ok, detail["error"] = False, "Prolongate did not return within 30 s"
+        except Exception as e:
+            ok, detail["error"] = False, repr(e)[:300]
+        n_eval += len(fine)
+        results.append((name, ok, detail))
+    if report:
+        _report(chk, "C20", results, n_eval, "nested mesh pairs from seeded bisection histories (0-3 levels between coarse and fine, shuffled "
+                "element orders); values bitwise equal to the geometric reference", "run_prolongate", tier, seed)
+    return results
+
+
 def run_c20(chk, tier, seed):
     import numpy as np
     from src.single_layer import SingleLayerOperator
     from src.hierarchical_error_estimator import HierarchicalErrorEstimator
     from src.h_h2_error_estimator import HH2ErrorEstimator
-    from src.mesh import Prolongate
     results = []
     n_eval = 0
     for (curve, hs, steps, tg) in c20_cases(tier):
@@ -127,7 +201,7 @@ def run_c20(chk, tier, seed):
             SL2 = SingleLayerOperator(mesh2)
             A = np.array([[SL2.bilform(tr, te) for tr in fine] for te in fine])
             y = np.linalg.solve(A, glin_vec(fine))
-            d = y - Prolongate(Phi, coarse2, fine)
+            d = y - prolong_ref(Phi, coarse2, fine)
             want = float(np.sqrt(d @ A @ d))
         n_eval += len(fine)
         rel = abs(got - want) / max(abs(want), 1e-300)
